@@ -32,7 +32,11 @@ ASSUMPTIONS = [
     "element values are opaque (theorems polymorphic in V); dtype promotion of data is not modelled",
     "index dtypes are unbounded integers in the model (can_store/astype upcast is exercised by the campaign only)",
     "conversion of DOK/GCXS members to COO and GCXS.change_compressed_axes are modelled by their meaning (C05)",
-    "take is modelled by the result of the getitem it delegates to (C02), for one integer or one 1-d list on one axis",
+    "take is modelled by the RESULT of the getitem it delegates to (C02), for one integer or one 1-d list on one axis "
+    "(take_int_den / take_list_den are theorems about that result model; the getitem algorithm itself is C02's)",
+    "GCXS joiners: the indptr splice is proved (indptr_splice_spec / indptr_splice_wf); their dense meaning "
+    "(gcxs_concat_den / gcxs_stack_den) is covered by correspondence only (exact data/indices/indptr comparison with "
+    "the model and dense comparison with the Spec on every all-GCXS case)",
 ]
 
 FMT = {"coo": "COO", "gcxs": "GCXS", "dok": "DOK"}
@@ -52,8 +56,8 @@ def _np_equal(res, expect):
     try:
         d = res.todense() if hasattr(res, "todense") else np.asarray(res)
         return bool(d.shape == expect.shape and np.array_equal(d, expect))
-    except Exception:  # noqa: BLE001
-        return None
+    except Exception:  # noqa: BLE001  (a result that cannot even be densified is not NumPy's result)
+        return False
 
 
 def _build(spec):
@@ -145,6 +149,30 @@ def impl_extract(case):
         out["np_ok"] = None
         out["np_exc"] = type(ex).__name__
     return out
+
+
+def py_clause(c):
+    """the named domain clause a case falls under (mirror of the clause logic of Corr/C09Judge.v; used
+    only when the Coq judge is unavailable)"""
+    if "fn" in c:
+        fm = [m["format"] for m in c["members"]]
+        nd = len(c["members"][0]["shape"])
+        if c["axis"] is None and all(f == "gcxs" for f in fm):
+            return "gcxs_joiner_axis_None"
+        if c["fn"] != "stack" and c["axis"] is None and "dok" in fm:
+            return "concatenate_axis_None_DOK_member"
+        if c["fn"] == "stack" and nd == 0 and any(f != "coo" for f in fm):
+            return "stack_0d_non_COO_member"
+        return None
+    if c["op"] in ("triu", "tril", "diagonal") and c["x"]["format"] != "coo":
+        return "extract_input_not_COO"
+    if c["op"] == "diagonal":
+        sh = c["x"]["shape"]
+        if sh[c["axis1"]] != sh[c["axis2"]]:
+            return "diagonal_nonsquare"
+        if min(c["axis1"], c["axis2"]) < 0:
+            return "diagonal_negative_axis"
+    return None
 
 
 def impl_any(case):
@@ -405,7 +433,8 @@ def campaign(build, tier, seed, report, budget=1):
                 viol.append({"property": "C09", "op": c.get("fn", c.get("op")), "kind": "value", "clause": "hang_or_crash",
                              "case": c, "impl": r, "replay_py": replay_join(c) if "fn" in c else replay_extract(c)})
             elif r.get("np_ok") is False:
-                viol.append({"property": "C09", "op": c.get("fn", c.get("op")), "kind": "value", "clause": None,
+                op = c.get("op") or ("stack" if c["fn"] == "stack" else "concatenate")
+                viol.append({"property": "C09", "op": op, "kind": "value", "clause": py_clause(c),
                              "case": c, "impl": r["res"], "note": "NumPy cross-check (the Coq judge does not build)",
                              "replay_py": replay_join(c) if "fn" in c else replay_extract(c)})
         if not viol:
